@@ -17,7 +17,7 @@ ASSUMPTIONS = ["oracle: every integer h != 0 in a bounding box of the shell, ext
                "shell bounds (and 1.1 x sintlmax for rhombohedral -3) are >= 1e-6 away from any lattice radius"]
 FLOORS = {"history:genhkl_all = allowed reflections in shell": 237, "history:independent of numpy random state, name = number": 237,
           "invariant:sg.sg group axioms": 237}
-WORKERS = {"quick": 4, "thorough": 16}
+WORKERS = {"quick": 8, "thorough": 16}
 BUDGET = {"quick": 300, "thorough": 2700}
 FINDING = "C05-rowwalk-early-exit"
 
@@ -54,7 +54,8 @@ def gen_cases(ctx, kind):
     for key, members in sorted(cls.items()):
         have = len(members) * reps
         k = 0
-        while have < floor:
+        # the rhombohedral walks (own segment tables, the 1.1 look-ahead factor, the open finding's classifier) get 4x the cases
+        while have < (floor * 4 if key[1] else floor):
             no, cc = members[k % len(members)]
             plan.append((reps + k // len(members), no, cc))
             have += 1
@@ -68,10 +69,16 @@ def gen_cases(ctx, kind):
             target = int(rng.integers(500, 900))
         big = ctx.thorough() and rep in (1, 2, 3)
         if ctx.mine(idx):
-            yield kind, {"no": no, "cc": cc, "variant": ["generic", "orth", "pseudo"][rep % 3] if big else variant, "s": s,
-                         "target": 2500 if big else target,
-                         "want_min": bool((rep + no) % 3 == 0),
-                         "module": "laue" if (idx + rep) % 3 == 0 else "tools"}
+            q = {"no": no, "cc": cc, "variant": ["generic", "orth", "pseudo"][rep % 3] if big else variant, "s": s,
+                 "target": 2500 if big else target,
+                 "want_min": bool((rep + no) % 3 == 0),
+                 "module": "laue" if (idx + rep) % 3 == 0 else "tools"}
+            yield kind, q
+            if cc == "rhombohedral" and not big:
+                # the same cell with four more cut-offs: whether a row of the rhombohedral walk ends early depends on where
+                # sintlmax falls between two lattice radii
+                for extra in range(8 if no in (146, 148) else 4):
+                    yield kind, dict(q, target=int(40 + (s // (extra + 1)) % 700), want_min=False)
 
 
 def workload(ctx):
